@@ -12,6 +12,9 @@ import Gamba.Props.C14b
 import Gamba.Props.C04b
 import Gamba.Props.C04c
 import Gamba.Proofs.C12a
+import Gamba.Proofs.C08b
+import Gamba.Props.C08d
+import Gamba.Props.C02cfg
 namespace Gamba
 namespace C13a
 open Check
@@ -250,6 +253,432 @@ theorem reverseCheck_self (D : DFA String String) (hv : D.valid = true) (hk : (D
       exact ⟨h1, h2, (reverse_lang D fresh eps hv hf he hk w h2).mp h3⟩
     · rintro ⟨h1, h2, h3⟩
       exact ⟨h1, h2, (reverse_lang D fresh eps hv hf he hk w h2).mpr h3⟩
+
+/-! ### counting distinct elements -/
+
+section Count
+variable {α β : Type} [DecidableEq α] [DecidableEq β]
+
+omit [DecidableEq α] [DecidableEq β] in
+theorem nodup_map_of_inj_on (f : α → β) : ∀ (l : List α), l.Nodup →
+    (∀ x y, x ∈ l → y ∈ l → f x = f y → x = y) → (l.map f).Nodup
+  | [], _, _ => by simp
+  | x :: l, hn, hf => by
+    obtain ⟨hx, hn'⟩ := List.nodup_cons.mp hn
+    rw [List.map_cons, List.nodup_cons]
+    refine ⟨?_, nodup_map_of_inj_on f l hn' (fun a b ha hb => hf a b (List.mem_cons_of_mem _ ha)
+      (List.mem_cons_of_mem _ hb))⟩
+    intro hm
+    obtain ⟨y, hy, hxy⟩ := List.mem_map.mp hm
+    have := hf y x (List.mem_cons_of_mem _ hy) List.mem_cons_self hxy
+    exact hx (this ▸ hy)
+
+/-- an injection from the elements of `l1` into those of `l2` -/
+theorem dedup_length_le_of_inj (f : α → β) (l1 : List α) (l2 : List β)
+    (hm : ∀ x, x ∈ l1 → f x ∈ l2) (hf : ∀ x y, x ∈ l1 → y ∈ l1 → f x = f y → x = y) :
+    (dedup l1).length ≤ (dedup l2).length := by
+  have h1 : ((dedup l1).map f).Nodup :=
+    nodup_map_of_inj_on f _ (nodup_dedup l1) (fun x y hx hy => hf x y (mem_dedup.mp hx) (mem_dedup.mp hy))
+  have h2 := nodup_subset_length_le ((dedup l1).map f) (dedup l2) h1 (by
+    intro y hy
+    obtain ⟨x, hx, rfl⟩ := List.mem_map.mp hy
+    exact mem_dedup.mpr (hm x (mem_dedup.mp hx)))
+  rwa [List.length_map] at h2
+
+/-- renaming by a function injective on the list keeps the number of distinct elements -/
+theorem dedup_map_length (f : α → β) (l : List α) (hf : ∀ x y, x ∈ l → y ∈ l → f x = f y → x = y) :
+    (dedup (l.map f)).length = (dedup l).length := by
+  apply Nat.le_antisymm
+  · have := nodup_subset_length_le (dedup (l.map f)) ((dedup l).map f) (nodup_dedup _) (by
+      intro y hy
+      obtain ⟨x, hx, rfl⟩ := List.mem_map.mp (mem_dedup.mp hy)
+      exact List.mem_map.mpr ⟨x, mem_dedup.mpr hx, rfl⟩)
+    rwa [List.length_map] at this
+  · exact dedup_length_le_of_inj f l (l.map f) (fun x hx => List.mem_map.mpr ⟨x, hx, rfl⟩) hf
+
+end Count
+
+/-! ### two Nerode partitions have the same number of blocks -/
+
+section Nerode
+variable {σ τ : Type} [DecidableEq σ] [DecidableEq τ]
+
+/-- the block of `P2` that contains the head of `B` -/
+def headBlock (P2 : List (List σ)) (B : List σ) : List σ :=
+  match B with
+  | [] => []
+  | p :: _ => blockOf P2 p
+
+theorem nerode_length_le (D : DFA σ τ) {P1 P2 : List (List σ)} (h1 : D.IsNerode P1) (h2 : D.IsNerode P2) :
+    (dedup P1).length ≤ (dedup P2).length := by
+  apply dedup_length_le_of_inj (headBlock P2) P1 P2
+  · intro B hB
+    cases hBl : B with
+    | nil => exact absurd hBl (h1.1.nonempty B hB)
+    | cons p B' =>
+      have hp : p ∈ D.Q := h1.1.sub B hB p (hBl ▸ List.mem_cons_self)
+      exact (h2.1.blockOf_mem hp).1
+  · intro B C hB hC he
+    cases hBl : B with
+    | nil => exact absurd hBl (h1.1.nonempty B hB)
+    | cons p B' =>
+      cases hCl : C with
+      | nil => exact absurd hCl (h1.1.nonempty C hC)
+      | cons q C' =>
+        have hpB : p ∈ B := hBl ▸ List.mem_cons_self
+        have hqC : q ∈ C := hCl ▸ List.mem_cons_self
+        have hp : p ∈ D.Q := h1.1.sub B hB p hpB
+        have hq : q ∈ D.Q := h1.1.sub C hC q hqC
+        rw [hBl, hCl] at he
+        simp only [headBlock] at he
+        obtain ⟨X, hX, hpX, hqX⟩ := (h2.1.blockOf_eq_iff hp hq).mp he
+        have heq : D.Equiv p q := h2.equiv_of_mem hX hpX hqX
+        rw [← hBl, ← hCl]
+        exact (h1.2 B C hB hC p q hpB hqC).mpr heq
+
+theorem nerode_length_eq (D : DFA σ τ) {P1 P2 : List (List σ)} (h1 : D.IsNerode P1) (h2 : D.IsNerode P2) :
+    (dedup P1).length = (dedup P2).length :=
+  Nat.le_antisymm (nerode_length_le D h1 h2) (nerode_length_le D h2 h1)
+
+end Nerode
+
+/-! ### minimal-DFA exercise -/
+
+/-- any valid automaton on a Nerode partition of `D` with the alphabet and the language of `D`, named injectively,
+    passes `check_dfa_minimal` -/
+theorem minimalCheck_of_nerode (D : DFA String String) (hv : D.valid = true) (hQ : D.Q.Nodup) (len : Nat)
+    (M : DFA (List String) String) (hMv : M.valid = true) (hMS : M.Sigma = D.Sigma) (hMN : D.IsNerode M.Q)
+    (hML : ∀ w, (∀ a, a ∈ w → a ∈ D.Sigma) → (M.Accepts w ↔ D.Accepts w))
+    (hinj : ∀ B C, B ∈ M.Q → C ∈ M.Q → printStateSet B = printStateSet C → B = C) :
+    minimalCheck D (M.mapStates printStateSet) len = .ok true := by
+  obtain ⟨M0, hM0, hM0v, hM0S, hM0N, hM0L, _⟩ := quotient_spec D hv hQ
+  have hAv := mapStates_valid printStateSet M hMv hinj
+  have hAS : (M.mapStates printStateSet).Sigma = D.Sigma := hMS
+  have hAQ : (M.mapStates printStateSet).Q = M.Q.map printStateSet := rfl
+  unfold minimalCheck
+  rw [hM0]
+  simp only [bind, Except.bind, pure, Except.pure, Except.ok.injEq, Bool.and_eq_true,
+    decide_eq_true_eq, C12a.compare_isNone_iff]
+  refine ⟨⟨?_, ?_⟩, ?_⟩
+  · rw [hM0S, hAS]; exact seq_refl _
+  · rw [hAQ, dedup_map_length printStateSet M.Q hinj]
+    exact nerode_length_eq D hM0N hMN
+  · intro w
+    rw [dfa_words_exact _ hAv len w, dfa_words_exact M0 hM0v len w, hAS, hM0S]
+    constructor
+    · rintro ⟨h1, h2, h3⟩
+      refine ⟨h1, h2, (hM0L w h2).mpr ((hML w h2).mp ?_)⟩
+      exact (mapStates_lang printStateSet M hMv hinj w (hMS ▸ h2)).mp h3
+    · rintro ⟨h1, h2, h3⟩
+      refine ⟨h1, h2, ?_⟩
+      exact (mapStates_lang printStateSet M hMv hinj w (hMS ▸ h2)).mpr ((hML w h2).mpr ((hM0L w h2).mp h3))
+
+/-- `exC04b.quotient` -/
+def exQuot : DFA (List String) String :=
+  { Q := [["3"], ["0"], ["1", "2"]], Sigma := ["a", "b"],
+    delta := [((["3"], "a"), ["3"]), ((["3"], "b"), ["3"]),
+              ((["0"], "a"), ["1", "2"]), ((["0"], "b"), ["1", "2"]),
+              ((["1", "2"], "a"), ["3"]), ((["1", "2"], "b"), ["0"])],
+    q0 := ["0"], F := [["3"]] }
+
+/-- `exC04b.hopcroft [2, 0, 1]` (same blocks, another order) -/
+def exHop : DFA (List String) String :=
+  { Q := [["3"], ["1", "2"], ["0"]], Sigma := ["a", "b"],
+    delta := [((["3"], "a"), ["3"]), ((["3"], "b"), ["3"]),
+              ((["1", "2"], "a"), ["3"]), ((["1", "2"], "b"), ["0"]),
+              ((["0"], "a"), ["1", "2"]), ((["0"], "b"), ["1", "2"])],
+    q0 := ["0"], F := [["3"]] }
+
+def exQuotNamed : DFA String String :=
+  { Q := ["{3}", "{0}", "{1,2}"], Sigma := ["a", "b"],
+    delta := [(("{3}", "a"), "{3}"), (("{3}", "b"), "{3}"), (("{0}", "a"), "{1,2}"), (("{0}", "b"), "{1,2}"),
+              (("{1,2}", "a"), "{3}"), (("{1,2}", "b"), "{0}")],
+    q0 := "{0}", F := ["{3}"] }
+
+def exHopNamed : DFA String String :=
+  { Q := ["{3}", "{1,2}", "{0}"], Sigma := ["a", "b"],
+    delta := [(("{3}", "a"), "{3}"), (("{3}", "b"), "{3}"), (("{1,2}", "a"), "{3}"), (("{1,2}", "b"), "{0}"),
+              (("{0}", "a"), "{1,2}"), (("{0}", "b"), "{1,2}")],
+    q0 := "{0}", F := ["{3}"] }
+
+theorem name_0 : printStateSet ["0"] = "{0}" := by simp [printStateSet, sortStrings, dedup]
+theorem name_3 : printStateSet ["3"] = "{3}" := by simp [printStateSet, sortStrings, dedup]
+theorem name_12 : printStateSet ["1", "2"] = "{1,2}" := by
+  simp [printStateSet, sortStrings, dedup, List.mergeSort]
+
+theorem exQuot_named : exQuot.mapStates printStateSet = exQuotNamed := by
+  simp [DFA.mapStates, exQuot, exQuotNamed, name_0, name_3, name_12]
+
+theorem exHop_named : exHop.mapStates printStateSet = exHopNamed := by
+  simp [DFA.mapStates, exHop, exHopNamed, name_0, name_3, name_12]
+
+theorem ex_names_inj (l : List (List String)) (hl : ∀ B, B ∈ l → B ∈ [["3"], ["0"], ["1", "2"]]) :
+    ∀ S T, S ∈ l → T ∈ l → printStateSet S = printStateSet T → S = T := by
+  intro S T hS hT
+  have hS' := hl S hS
+  have hT' := hl T hT
+  simp only [List.mem_cons, List.not_mem_nil, or_false] at hS' hT'
+  rcases hS' with rfl | rfl | rfl <;> rcases hT' with rfl | rfl | rfl <;>
+    simp only [name_0, name_3, name_12] <;> decide
+
+/-! ### Chomsky exercise -/
+
+section Chomsky
+open CFG
+
+/-- the structural (non-language) part of `cfg_check_chomsky` -/
+def chomskyStruct (G1 : CFG) (phase : Nat) (start : String) : Bool :=
+  (phase < 1 || decide (G1.S = start)) &&
+  (phase < 2 || G1.R.all fun r => !(r.rhs.isEmpty && decide (r.lhs ≠ G1.S))) &&
+  (phase < 3 || G1.R.all fun r => !CFG.isUnit r) &&
+  (phase < 4 || G1.R.all fun r => r.rhs.length ≤ 2) &&
+  (phase < 5 || G1.R.all fun r => CFG.altIsChomsky r.rhs)
+
+theorem chomskyCheck_eq (G G1 : CFG) (phase : Nat) (start : String) (len : Nat) :
+    chomskyCheck G G1 phase start len =
+      ((compareLanguages (G1.wordsUpTo len) (G.wordsUpTo len)).isNone && chomskyStruct G1 phase start) := by
+  unfold chomskyCheck chomskyStruct
+  simp only [Bool.and_assoc]
+
+theorem freshVariable_of_not_mem {V : List String} {hint : String} (h : hint ∉ V) :
+    freshVariable V hint = hint := by
+  unfold freshVariable
+  simp only [h, if_false, not_false_eq_true, if_true, ite_self]
+
+theorem okEps_of {H : CFG} (h : NoEpsExceptStart H) :
+    (H.R.all fun r => !(r.rhs.isEmpty && decide (r.lhs ≠ H.S))) = true := by
+  rw [List.all_eq_true]
+  intro r hr
+  cases hrhs : r.rhs with
+  | nil => simp [h r hr hrhs]
+  | cons x xs => simp
+
+theorem okUnit_of {H : CFG} (h : NoUnit H) : (H.R.all fun r => !CFG.isUnit r) = true := by
+  rw [List.all_eq_true]
+  intro r hr
+  rw [h r hr]; rfl
+
+theorem okLen_of {H : CFG} (h : RhsLe2 H) : (H.R.all fun r => decide (r.rhs.length ≤ 2)) = true := by
+  rw [List.all_eq_true]
+  intro r hr
+  exact decide_eq_true (h r hr)
+
+theorem okCnf_of {H : CFG} (h : AllCnfShaped H) : (H.R.all fun r => CFG.altIsChomsky r.rhs) = true := by
+  rw [List.all_eq_true]
+  exact h
+
+theorem noUnit_of_cnf {H : CFG} (h : AllCnfShaped H) : NoUnit H := by
+  intro r hr
+  have := h r hr
+  unfold isUnit
+  revert this
+  rcases r.rhs with _ | ⟨x, _ | ⟨y, _ | ⟨z, l⟩⟩⟩ <;> (try cases x) <;> (try cases y) <;> simp [altIsChomsky]
+
+theorem rhsLe2_of_cnf {H : CFG} (h : AllCnfShaped H) : RhsLe2 H := by
+  intro r hr
+  have := h r hr
+  revert this
+  rcases r.rhs with _ | ⟨x, _ | ⟨y, _ | ⟨z, l⟩⟩⟩ <;> (try cases x) <;> (try cases y) <;> simp [altIsChomsky]
+
+/-- what the exercise needs about the stages of the conversion of `G` with start hint `start` -/
+structure Stages (G : CFG) (start : String) : Prop where
+  S1 : (G.addStart start).S = freshVariable G.V start
+  S2 : (G.addStart start).removeEps.S = freshVariable G.V start
+  S3 : (G.addStart start).removeEps.elimUnit.S = freshVariable G.V start
+  S4 : (G.addStart start).removeEps.elimUnit.binarise.S = freshVariable G.V start
+  S5 : (G.addStart start).removeEps.elimUnit.binarise.isolateTerminals.S = freshVariable G.V start
+  v1 : (G.addStart start).valid = true
+  v2 : (G.addStart start).removeEps.valid = true
+  v3 : (G.addStart start).removeEps.elimUnit.valid = true
+  v4 : (G.addStart start).removeEps.elimUnit.binarise.valid = true
+  s1 : (G.addStart start).S ∈ (G.addStart start).V
+  s2 : (G.addStart start).removeEps.S ∈ (G.addStart start).removeEps.V
+  s3 : (G.addStart start).removeEps.elimUnit.S ∈ (G.addStart start).removeEps.elimUnit.V
+  s4 : (G.addStart start).removeEps.elimUnit.binarise.S ∈ (G.addStart start).removeEps.elimUnit.binarise.V
+  a1 : AliasOK (G.addStart start)
+  a2 : AliasOK (G.addStart start).removeEps
+  a3 : AliasOK (G.addStart start).removeEps.elimUnit
+  a4 : AliasOK (G.addStart start).removeEps.elimUnit.binarise
+  V123 : ∀ A, A ∈ (G.addStart start).removeEps.elimUnit.V ↔ A ∈ G.V ∨ A = freshVariable G.V start
+  ne2 : NoEpsExceptStart (G.addStart start).removeEps
+  ne3 : NoEpsExceptStart (G.addStart start).removeEps.elimUnit
+  ne4 : NoEpsExceptStart (G.addStart start).removeEps.elimUnit.binarise
+  nu3 : NoUnit (G.addStart start).removeEps.elimUnit
+  nu4 : NoUnit (G.addStart start).removeEps.elimUnit.binarise
+  le4 : RhsLe2 (G.addStart start).removeEps.elimUnit.binarise
+  pipe : C08d.Pipe G start
+
+theorem stages (G : CFG) (start : String) (hv : G.valid = true) (hS : G.S ∈ G.V) (ha : AliasOK G)
+    (hd : ∀ a, a ∈ G.Sigma → a ∉ G.V ∧ a ≠ freshVariable G.V start) : Stages G start := by
+  have hS1 : (G.addStart start).S = freshVariable G.V start := rfl
+  obtain ⟨v1, _, s1, V1, sr1, a1, l1⟩ := addStart_spec G start hv hS
+  have a1 := a1 ha
+  obtain ⟨v2, S2, V2, ne2, a2, sr2, l2⟩ := removeEps_spec (G.addStart start) v1
+  have sr2 := sr2 sr1
+  have s2 : (G.addStart start).removeEps.S ∈ (G.addStart start).removeEps.V := by
+    rw [S2, V2]; exact s1
+  have d2 : Disjoint (G.addStart start).removeEps := by
+    intro x hx hxs
+    rw [V2] at hx
+    have hxs' : x ∈ G.Sigma := hxs
+    rcases (V1 x).mp hx with h | h
+    · exact (hd x hxs').1 h
+    · exact (hd x hxs').2 h
+  obtain ⟨v3, S3, V3, nu3, ne3, sr3, a3, l3⟩ := elimUnit_spec (G.addStart start).removeEps v2 d2
+  have ne3 := ne3 ne2 sr2
+  have a3 := a3 a2
+  have s3 : (G.addStart start).removeEps.elimUnit.S ∈ (G.addStart start).removeEps.elimUnit.V := by
+    rw [S3, V3]; exact s2
+  obtain ⟨v4, S4, V4, le4, a4, nu4, ne4, sr4, l4⟩ :=
+    binarise_spec C08d.hfresh (G.addStart start).removeEps.elimUnit v3 a3
+  have s4 : (G.addStart start).removeEps.elimUnit.binarise.S ∈
+      (G.addStart start).removeEps.elimUnit.binarise.V := by
+    rw [S4]; exact V4 _ s3
+  obtain ⟨v5, S5, _⟩ :=
+    isolateTerminals_spec C08d.hfresh (G.addStart start).removeEps.elimUnit.binarise v4 a4
+  have e2 : (G.addStart start).removeEps.S = freshVariable G.V start := S2.trans hS1
+  have e3 : (G.addStart start).removeEps.elimUnit.S = freshVariable G.V start := S3.trans e2
+  have e4 : (G.addStart start).removeEps.elimUnit.binarise.S = freshVariable G.V start := S4.trans e3
+  exact ⟨hS1, e2, e3, e4, S5.trans e4, v1, v2, v3, v4, s1, s2, s3, s4, a1, a2, a3, a4,
+    (by intro A; rw [V3, V2]; exact V1 A), ne2, ne3, ne4 ne3, nu3, nu4 nu3, le4,
+    C08d.pipe G start hv hS ha hd⟩
+
+/-- the structural part holds for the answer key of every phase -/
+theorem chomskyStruct_self (G : CFG) (phase : Nat) (start : String)
+    (hv : G.valid = true) (hS : G.S ∈ G.V) (ha : AliasOK G)
+    (hd : ∀ a, a ∈ G.Sigma → a ∉ G.V ∧ a ≠ freshVariable G.V start) (hstart : start ∉ G.V) :
+    chomskyStruct (G.applyChomsky phase start) phase start = true := by
+  have st := stages G start hv hS ha hd
+  have hf := freshVariable_of_not_mem hstart
+  unfold chomskyStruct
+  rcases phase with _ | _ | _ | _ | _ | n
+  · simp
+  · rw [C08d.applyChomsky_1]
+    simp [st.S1, hf]
+  · rw [C08d.applyChomsky_2]
+    simp only [okEps_of st.ne2]
+    simp [st.S2, hf]
+  · rw [C08d.applyChomsky_3]
+    simp only [okEps_of st.ne3, okUnit_of st.nu3]
+    simp [st.S3, hf]
+  · rw [C08d.applyChomsky_4]
+    simp only [okEps_of st.ne4, okUnit_of st.nu4, okLen_of st.le4]
+    simp [st.S4, hf]
+  · rw [C08d.applyChomsky_ge5 G (n + 5) start (by omega)]
+    obtain ⟨c5, _, ne5⟩ := C08d.of_isChomsky st.pipe.chomsky5
+    simp only [okEps_of ne5, okUnit_of (noUnit_of_cnf c5), okLen_of (rhsLe2_of_cnf c5), okCnf_of c5]
+    simp [st.S5, hf]
+
+/-- the language part: the enumerations of the answer key and of the input grammar agree.
+    `hd0`: the start variable that `cfg_words_up_to_n` introduces when it normalises `G` is not a terminal;
+    `hd1` (phases 1–4, where the answer key is not yet in CNF and is normalised again by the enumerator): the
+    terminals are neither variables of the answer key nor the start variable introduced by that normalisation -/
+theorem chomskyLang_self (G : CFG) (phase : Nat) (start : String) (len : Nat)
+    (hv : G.valid = true) (hS : G.S ∈ G.V) (ha : AliasOK G)
+    (hd : ∀ a, a ∈ G.Sigma → a ∉ G.V ∧ a ≠ freshVariable G.V start)
+    (hd0 : ∀ a, a ∈ G.Sigma → a ≠ freshVariable G.V "S")
+    (hd1 : phase ≤ 4 → ∀ a, a ∈ G.Sigma →
+      a ∉ (G.applyChomsky phase start).V ∧ a ≠ freshVariable (G.applyChomsky phase start).V "S") :
+    (compareLanguages ((G.applyChomsky phase start).wordsUpTo len) (G.wordsUpTo len)).isNone = true := by
+  have st := stages G start hv hS ha hd
+  have hG : ∀ w, w ∈ G.wordsUpTo len ↔ w.length ≤ len ∧ G.Lang w :=
+    cfg_words_exact G hv hS ha (fun a h => ⟨(hd a h).1, hd0 a h⟩) len
+  have hL := applyChomsky_lang G phase start hv hS ha hd
+  rw [C12a.compare_isNone_iff]
+  intro w
+  rw [hG w, ← hL w]
+  rcases phase with _ | _ | _ | _ | _ | n
+  · rw [C08d.applyChomsky_0] at hd1 ⊢
+    exact cfg_words_exact G hv hS ha (hd1 (by omega)) len w
+  · rw [C08d.applyChomsky_1] at hd1 ⊢
+    exact cfg_words_exact _ st.v1 st.s1 st.a1 (hd1 (by omega)) len w
+  · rw [C08d.applyChomsky_2] at hd1 ⊢
+    exact cfg_words_exact _ st.v2 st.s2 st.a2 (hd1 (by omega)) len w
+  · rw [C08d.applyChomsky_3] at hd1 ⊢
+    exact cfg_words_exact _ st.v3 st.s3 st.a3 (hd1 (by omega)) len w
+  · rw [C08d.applyChomsky_4] at hd1 ⊢
+    have hSig : (G.addStart start).removeEps.elimUnit.binarise.Sigma = G.Sigma := by
+      rw [C08d.binarise_Sigma]; rfl
+    exact cfg_words_exact _ st.v4 st.s4 st.a4 (by rw [hSig]; exact hd1 (by omega)) len w
+  · rw [C08d.applyChomsky_ge5 G (n + 5) start (by omega)]
+    exact cfg_words_exact_cnf _ st.pipe.chomsky5 len w
+
+theorem chomskyCheck_self (G : CFG) (phase : Nat) (start : String) (len : Nat)
+    (hv : G.valid = true) (hS : G.S ∈ G.V) (ha : AliasOK G)
+    (hd : ∀ a, a ∈ G.Sigma → a ∉ G.V ∧ a ≠ freshVariable G.V start) (hstart : start ∉ G.V)
+    (hd0 : ∀ a, a ∈ G.Sigma → a ≠ freshVariable G.V "S")
+    (hd1 : phase ≤ 4 → ∀ a, a ∈ G.Sigma →
+      a ∉ (G.applyChomsky phase start).V ∧ a ≠ freshVariable (G.applyChomsky phase start).V "S") :
+    chomskyCheck G (G.applyChomsky phase start) phase start len = true := by
+  rw [chomskyCheck_eq, chomskyLang_self G phase start len hv hS ha hd hd0 hd1,
+    chomskyStruct_self G phase start hv hS ha hd hstart]
+  rfl
+
+/-- phases 0–3 add no variable but the new start variable: `hd1` follows from a condition on the input -/
+theorem hd1_of_le3 (G : CFG) (phase : Nat) (start : String) (h3 : phase ≤ 3)
+    (hd : ∀ a, a ∈ G.Sigma → a ∉ G.V ∧ a ≠ freshVariable G.V start)
+    (hd0 : ∀ a, a ∈ G.Sigma → a ≠ freshVariable G.V "S")
+    (hd0' : ∀ a, a ∈ G.Sigma → a ≠ freshVariable (G.V ++ [freshVariable G.V start]) "S") :
+    ∀ a, a ∈ G.Sigma →
+      a ∉ (G.applyChomsky phase start).V ∧ a ≠ freshVariable (G.applyChomsky phase start).V "S" := by
+  intro a haS
+  have hV : ∀ H : CFG, H.V = G.V ++ [freshVariable G.V start] →
+      a ∉ H.V ∧ a ≠ freshVariable H.V "S" := by
+    intro H hH
+    rw [hH]
+    refine ⟨?_, hd0' a haS⟩
+    rw [List.mem_append, List.mem_singleton]
+    rintro (h | h)
+    · exact (hd a haS).1 h
+    · exact (hd a haS).2 h
+  rcases phase with _ | _ | _ | _ | n
+  · rw [C08d.applyChomsky_0]; exact ⟨(hd a haS).1, hd0 a haS⟩
+  · rw [C08d.applyChomsky_1]; exact hV _ rfl
+  · rw [C08d.applyChomsky_2]; exact hV _ rfl
+  · rw [C08d.applyChomsky_3]; exact hV _ rfl
+  · omega
+
+end Chomsky
+
+/-! ### example grammars for the Chomsky exercise -/
+
+/-- `S → aSb | ε` -/
+def exS : CFG :=
+  { V := ["S"], Sigma := ["a", "b"], S := "S",
+    R := [⟨"S", 0, [.t "a", .v "S", .t "b"]⟩, ⟨"S", 1, []⟩] }
+
+theorem exS_valid : exS.valid = true := by decide
+theorem exS_S : exS.S ∈ exS.V := by decide
+theorem exS_alias : CFG.AliasOK exS := CFG.C08c.aliasOK_of_b (by decide)
+theorem exS_hd : ∀ a, a ∈ exS.Sigma → a ∉ exS.V ∧ a ≠ CFG.freshVariable exS.V "T" := by decide
+theorem exS_hd0 : ∀ a, a ∈ exS.Sigma → a ≠ CFG.freshVariable exS.V "S" := by decide
+theorem exS_hd1 (phase : Nat) : phase ≤ 4 → ∀ a, a ∈ exS.Sigma →
+    a ∉ (exS.applyChomsky phase "T").V ∧ a ≠ CFG.freshVariable (exS.applyChomsky phase "T").V "S" := by
+  intro h
+  rcases phase with _ | _ | _ | _ | _ | n
+  · decide
+  · decide
+  · decide
+  · decide
+  · decide
+  · omega
+
+/-- counterexample to the statement without `hd1`: the upper-case terminal `A` collides with the variable `A` that
+    phase 4 introduces for the tail of `X → bbb`; when the enumerator normalises the answer key, the unit-rule phase
+    takes the terminal `A` of `T → A` for that variable and adds `T → bb` -/
+def cexG : CFG :=
+  { V := ["X"], Sigma := ["A", "b"], S := "X",
+    R := [⟨"X", 0, [.t "A"]⟩, ⟨"X", 1, [.t "b", .t "b", .t "b"]⟩] }
+
+theorem cexG_valid : cexG.valid = true := by decide
+theorem cexG_S : cexG.S ∈ cexG.V := by decide
+theorem cexG_alias : CFG.AliasOK cexG := CFG.C08c.aliasOK_of_b (by decide)
+theorem cexG_hd : ∀ a, a ∈ cexG.Sigma → a ∉ cexG.V ∧ a ≠ CFG.freshVariable cexG.V "T" := by decide
+theorem cexG_hd0 : ∀ a, a ∈ cexG.Sigma → a ≠ CFG.freshVariable cexG.V "S" := by decide
+theorem cexG_key : (cexG.applyChomsky 4 "T").V = ["X", "T", "A"] ∧ (cexG.applyChomsky 4 "T").R =
+    [⟨"T", 4, [.t "A"]⟩, ⟨"X", 5, [.t "b", .v "A"]⟩, ⟨"X", 4, [.t "A"]⟩, ⟨"T", 5, [.t "b", .v "A"]⟩,
+     ⟨"A", 6, [.t "b", .t "b"]⟩] := by decide
+theorem cexG_rejected : chomskyCheck cexG (cexG.applyChomsky 4 "T") 4 "T" 3 = false := by decide +kernel
 
 end C13a
 end Gamba
